@@ -30,7 +30,7 @@ CHECKS = {
     ),
     "C15": dict(
         level="exploration",
-        rule="rapid draws blobs (nil, empty, 1 byte, odd, even, chunk-like tokens, up to 70 KB) for every subset of ICC/EXIF/XMP x every source image type and placement x {lossy, lossy+alpha, lossless, lossless+alpha stills; 1-4 frame lossy/lossless animations}; "
+        rule="rapid draws blobs (nil, empty, 1 byte, odd, even, chunk-like tokens, up to 70 KB) for every subset of ICC/EXIF/XMP x every source image type and placement x {lossy, lossy+alpha, lossless, lossless+alpha stills; 1-4 frame lossy/lossless animations, and 1 animation in 40 with 500-2100 frames of a tiny canvas}; "
              "oracle: riffwalk validates; blobs byte-exact in the file, via Demuxer.GetChunk and via animation.DecodeBytes; flags <=> chunks; image/ALPH chunk bytes and decoded pixels/playback identical with and without metadata; thorough adds the 100 MB cap (+1 rejected, exactly 100 MB accepted and read back). "
              "Non-trivial: >=1 non-empty blob; distinct = (kind, subset+parities, codec, alpha, frame count).",
         assumptions=["an empty (zero-length) blob may be stored as an empty chunk or omitted; both accepted"],
@@ -38,7 +38,7 @@ CHECKS = {
     ),
     "C19": dict(
         level="exploration",
-        rule="rapid draws an NRGBA picture and 3-6 equivalent presentations (sub-image of a larger garbage-filled parent, non-zero Rect.Min, stride padding with garbage, generic image.Image wrapper, *image.RGBA for opaque pictures) x lossy/lossless options; "
+        rule="rapid draws an NRGBA picture and 3-6 equivalent presentations (sub-image of a larger garbage-filled parent, non-zero Rect.Min, stride padding with garbage, generic image.Image wrapper, *image.RGBA for opaque pictures) x lossy/lossless options; a third of the cases also store the picture in a standard-library image type (NRGBA64, RGBA64, Gray, Gray16, Paletted, CMYK, Alpha, YCbCr 4:4:4/4:2:2/4:2:0/4:4:0/4:1:1/4:1:0) at any origin parity and require the bytes of an *image.NRGBA at the origin holding the colours that image yields; "
              "oracle (metamorphic): all presentations give byte-identical files from a pool-flushed state; changing only out-of-bounds bytes changes nothing; SHA-256 of the caller's whole backing buffer unchanged. "
              "Non-trivial: >=2 colours and >=3 presentations; distinct = (codec, alpha, Exact, sharp, preprocessing, Method, presentation list).",
         assumptions=["sync.Pool state is normalised (runtime.GC x2) before each compared encode; history dependence is C11's subject"],
@@ -65,7 +65,7 @@ CHECKS = {
     ),
     "C06": dict(
         level="exploration",
-        rule="rapid draws pictures (incl. non-multiples of 16, >=4 macroblock rows, and 5% large pictures of 400-640 x 336-640 = 525-1600 macroblocks made of one texture with 1-3 outlier blocks, so that rounded segment/skip probabilities saturate) x the lossy option product (targets, passes, presets, segments, partitions, sharp YUV, dithering) x GOMAXPROCS {1,2,3,4,8} (serial and row-parallel encoder); the verif-tagged FrameEncoded hook copies the encoder's reconstruction after every pass (last one kept). "
+        rule="rapid draws pictures (incl. non-multiples of 16, >=4 macroblock rows, and 5% large pictures of 400-640 x 336-640 = 525-1600 macroblocks made of one texture with 1-3 outlier blocks, so that rounded segment/skip probabilities saturate) x the lossy option product (targets, passes, presets, segments, partitions, sharp YUV, dithering) x GOMAXPROCS {1,2,3,4,8} (serial and row-parallel encoder); 7 % of the cases are 160-336 px pictures (100-440 macroblocks) with flat bars (letterbox) or other content and a TargetSize/TargetPSNR with 2-6 passes; the verif-tagged FrameEncoded hook copies the encoder's reconstruction after every pass (last one kept). "
              "Oracle: vendored x/image/vp8 with the loop filter skipped == reconstruction; package decoder with NoLoopFilter hook == reconstruction; when the stream's filter level is 0 the plain public Decode == reconstruction; decoded size == source size. "
              "Non-trivial: >=2 colours; distinct = (serial/parallel path, Method, segments, filter off, pass count, sharp, target mode, preprocessing).",
         assumptions=["the hook observes the planes the encoder used as prediction reference (encoder writes its reconstruction into its Y/U/V planes)", "vendored x/image/vp8 + SkipLoopFilter switch as independent pre-deblocking decoder"],
@@ -73,7 +73,7 @@ CHECKS = {
     ),
     "C05": dict(
         level="exploration",
-        rule="inputs: 1-4 rapid-drawn mutations (bit flips, hostile byte values, chunk size-field rewrites incl. 0/1/odd/len+-k/0x7fffffff/0xffffffff, dimension rewrites, chunk delete/duplicate/move, FourCC swaps, truncation, random tails, inserts, 0x00/0xff runs, splices across seeds) of ~25 small valid files (package encoder: lossy 1/4/8 partitions, lossy+alpha raw/compressed/quantised, lossless, metadata; animation encoder lossless/lossy/mixed; muxer; /verif's VP8 and VP8L generators incl. predictor modes 14/15 and 15-bit codes; libwebp-written; repo testdata), freshly generated free-mode VP8L/VP8 streams (intact or mutated), a multi-damage mutation that makes several frames of one file undecodable at once, 14-frame animations, GOMAXPROCS drawn from {as is,1,2,3,4} per case (worker counts of the frame-parallel reader), random bytes behind a valid magic, and container programs with lying size fields. "
+        rule="inputs: 1-4 rapid-drawn mutations (bit flips, hostile byte values, chunk size-field rewrites incl. 0/1/odd/len+-k/0x7fffffff/0xffffffff, dimension rewrites, chunk delete/duplicate/move, FourCC swaps, truncation, random tails, inserts, 0x00/0xff runs, splices across seeds) of ~25 small valid files (package encoder: lossy 1/4/8 partitions, lossy+alpha raw/compressed/quantised, lossless, metadata; animation encoder lossless/lossy/mixed; muxer; /verif's VP8 and VP8L generators incl. predictor modes 14/15 and 15-bit codes; libwebp-written; repo testdata; valid pictures of more than 100,000 pixels that are 9-12 pixels high or wide; 14-frame animations), freshly generated free-mode VP8L/VP8 streams (intact or mutated), a multi-damage mutation that makes several frames of one file undecodable at once, 14-frame animations, GOMAXPROCS drawn from {as is,1,2,3,4} per case (worker counts of the frame-parallel reader), random bytes behind a valid magic, and container programs with lying size fields. "
              "Every input goes through Decode, DecodeConfig, GetFeatures, image.Decode/DecodeConfig, animation.DecodeBytes+DecodeFrames+DecodeFramesParallel+AnimDecoder playback, mux.NewDemuxer+Frame(i)+GetChunk+iterator. "
              "Oracle: no panic, returns within a watchdog limit of 30 s + 1 ms per 20,000 declared pixels (an expiry must reproduce with six times that limit before it counts), well-formed results (positive bounds, buffers large enough), bytes allocated <= 64 MiB + 64 x (input length + 4 x declared pixels). "
              "Non-trivial: input still carries the RIFF/WEBP magic; distinct = (source, seed, mutation kinds, which entry points accepted). Thorough adds a native coverage-guided fuzz campaign over the same entry points.",
@@ -85,14 +85,14 @@ CHECKS = {
     "C17": dict(
         level="fault_enumeration",
         rule="files: rapid-drawn pictures encoded by the package (lossy with 1/2/4/8 partitions, lossless, lossy+alpha raw/compressed, with/without ICC/EXIF/XMP before and after the image, plus a trailing unknown chunk), by libwebp 1.2.4, and /verif-generated VP8 frames; for EVERY file EVERY proper prefix length 0..len-1 is enumerated (the fault = truncation point). "
-             "Oracle: Decode(prefix) is an error or an image identical in type, bounds and samples to the full decode; DecodeConfig/GetFeatures(prefix) is an error or equal in all fields to the complete file's. "
+             "Each prefix is read through a bytes.Reader and through one of six other legal reader behaviours (rotating with the prefix length). Oracle: Decode(prefix) is an error or an image identical in type, bounds and samples to the full decode; DecodeConfig/GetFeatures(prefix) is an error or equal in all fields to the complete file's. "
              "Non-trivial: every file (all its cut points inside chunk payloads are visited); distinct = (source, chunk layout + partition count, decoded type). prefixes_checked counts the enumerated truncation points.",
         assumptions=["files the package's Decode rejects in full are outside the property's domain and counted inconclusive"],
         tests=[dict(name="TestC17", quick=3200, thorough=12000)],
     ),
     "C09": dict(
         level="exploration",
-        rule="three parts. (random) rapid draws animation.Animation values directly: canvas 1..12 (thorough ..32), 1-9 frames with rectangles full / inside / overhanging the right-bottom edge, blend x dispose, opaque/semi/transparent/mixed/edge-value content, HasAlpha flags that never understate, NRGBA and generic frame images. "
+        rule="three parts. (random) rapid draws animation.Animation values directly: canvas 1..12 (thorough ..32), 1-9 frames with rectangles full / inside / overhanging the right-bottom edge, blend x dispose, opaque/semi/transparent/mixed/edge-value content, HasAlpha flags that never understate, NRGBA and generic frame images, Animation.BackgroundColor zero/opaque/translucent (documented: never painted). "
              "(bounded-exhaustive) every frame list of length <=3 (thorough <=4) over an 84-frame alphabet on a 2x2 canvas (4 rectangles incl. overhanging x blend x dispose x 4 alpha patterns x consistent HasAlpha). "
              "(blend sweep) for sampled (thorough: all 65536) (src alpha, dst alpha) pairs, one 256x256 composite covering all 65536 (src channel, dst channel) combinations. "
              "Oracle: /verif's key-frame-free reference compositor (transparent start, dispose previous rectangle clipped, overwrite or libwebp-documented integer blend; exact value also accepted where src alpha=255 or dst alpha=0); Reset replays identically; returned snapshots never change (SHA-256); Canvas() equals the last snapshot. "
@@ -102,7 +102,7 @@ CHECKS = {
     ),
     "C08": dict(
         level="exploration",
-        rule="rapid draws frame sequences for the lossless animation encoder: canvas 1..24 (thorough ..64; 1 in 40 sequences 64..220 px per side with <= 4 frames), sprite-like pictures with fully transparent margins, a first picture that may be smaller than the canvas, 1-8 (..14) pictures each derived from the previous one (identical / scattered small-rectangle edit / single pixel / large edit / alpha-only edit / border edit / smaller-than-canvas picture / new picture) over opaque, binary, flat semi-transparent, few-level, gradient, noise and fully transparent content; durations small, zero-mixed, or near 2^24-1 with sums crossing it; Kmin/Kmax in {0,1,2,3,5,9,100,1000}; loop counts incl. >65535 and <0; Quality in {0,50,75,100}. "
+        rule="rapid draws frame sequences for the lossless animation encoder: canvas 1..24 (thorough ..64; 1 in 40 sequences 64..220 px per side with <= 4 frames), sprite-like pictures with fully transparent margins, a first picture that may be smaller than the canvas, 1-8 (..14) pictures each derived from the previous one (identical / scattered small-rectangle edit / single pixel / large edit / alpha-only edit / border edit / smaller-than-canvas picture / new picture) over opaque, binary, flat semi-transparent, few-level, gradient, noise and fully transparent content; durations small, zero-mixed, or near 2^24-1 with sums crossing it; Kmin/Kmax in {0,1,2,3,5,9,100,1000}; loop counts incl. >65535 and <0; EncodeOptions.BackgroundColor from {zero, opaque, translucent, alpha 1, coloured alpha 0}; Quality in {0,50,75,100}. "
              "Oracle: expected timeline = input canvases (smaller pictures at (0,0) on transparent) with consecutive identical ones merged; actual = DecodeBytes+DecodeFrames+AnimDecoder snapshots merged the same way; pictures equal in order (alpha-0 pixels equal whatever their colour), canvas size equal, and with >=2 distinct pictures per-picture display time, total duration and (clamped) loop count equal; every file passes riffwalk. "
              "Non-trivial: >=2 distinct pictures and a sub-frame, merged duplicate or forced key frame; distinct = (alpha class, edit kinds, Kmin/Kmax, blend/dispose modes in the file, sub-frame/merge/filler seen).",
         assumptions=["frame durations are generated in 0..2^24-1 ms (a single duration above the container's 24-bit field cannot be stored)"],
@@ -118,7 +118,7 @@ CHECKS = {
     ),
     "C14": dict(
         level="exploration",
-        rule="rapid draws Muxer call sequences (1-14 ops; an AddFrame may be repeated 200-10001 times: long animations around the 1000-chunk and 10000-frame limits): AddFrame with real VP8/VP8L bitstreams from a pool of 35 (lossy, lossless, lossy with compressed and raw ALPH prefix, VP8L with alpha bit; odd and even payload lengths) and FrameOptions (nil; offsets even/odd; durations incl. 0, >2^24-1 and negative = documented clamping; blend; dispose), SetFrameDisposeMode/SetFrameDuration on valid and invalid indices, SetCanvasSize (incl. 0, clamped values), SetLoopCount (clamped), SetBackgroundColor, SetICCProfile/SetEXIF/SetXMP/AddChunk with nil/empty/odd/even/chunk-like/format-signature blobs and lengths around powers of two (2^k-9..2^k+9, k<=12); then Assemble (and, for accepted states, Assemble again into writers that fail after k bytes: it must report the failure). "
+        rule="rapid draws Muxer call sequences (1-14 ops; an AddFrame may be repeated 200-10001 times: long animations around the 1000-chunk and 10000-frame limits): AddFrame with real VP8/VP8L bitstreams from a pool of 35 (lossy, lossless, lossy with compressed and raw ALPH prefix, VP8L with alpha bit; odd and even payload lengths) and FrameOptions (nil; offsets even/odd; durations incl. 0, >2^24-1 and negative = documented clamping; blend; dispose), SetFrameDisposeMode/SetFrameDuration on valid and invalid indices, SetCanvasSize (incl. 0, clamped values), SetLoopCount (clamped), SetBackgroundColor, SetICCProfile/SetEXIF/SetXMP/AddChunk with nil/empty/odd/even/chunk-like/format-signature blobs and lengths around powers of two (2^k-9..2^k+9, k<=12); half of the cases hand every payload over as a plain sub-slice of ONE buffer (back to back, so that a slice's spare capacity covers the next payload) and require that buffer to be unchanged afterwards; then Assemble (and, for accepted states, Assemble again into writers that fail after k bytes: it must report the failure). "
              "Oracle: a model of the muxer state predicts acceptance and structure. Accepted: riffwalk validates the file; mux.Demuxer AND container.Parser return the same bitstreams and ALPH payloads byte for byte, offsets rounded down to even, clamped durations, blend/dispose, loop count, background colour, canvas, metadata; GetFeatures agrees; stills decode to the same pixels as their bitstream alone. Rejected: an error, and nothing that parses as a complete file was written; consistent states must not be rejected, frames outside the canvas must be. "
              "Non-trivial: alpha-prefixed frame, >=2 frames or metadata; distinct = (animated, frame count, setters used, payload parities, fits).",
         assumptions=["offsets non-negative; canvas area kept below the package's 2^30-pixel reader cap; for stills with an explicit canvas different from the picture the strict still-canvas rule of riffwalk is not applied"],
@@ -127,7 +127,7 @@ CHECKS = {
     "C16": dict(
         level="exploration",
         rule="well-formed files from four sources: Encode outputs (all codecs, alpha, metadata), AnimEncoder outputs (lossless/lossy/mixed), and hand-assembled containers written by /verif's riffgen: VP8X stills with/without ALPH incl. a zero-length ALPH, ICCP/EXIF/XMP before or after the image, unknown chunks, feature flags over- or under-stating the optional chunks (canvas == image size), and VP8X animations (ANIM + 1-5 ANMF frames inside the canvas, ALPH/VP8/VP8L sub-chunks, unknown chunks between/inside frames). "
-             "Oracle: GetFeatures, DecodeConfig, mux.Demuxer and animation.DecodeBytes all accept and agree on canvas size, animation flag, frame count and (animated) loop count; for stills Decode accepts: header width/height == decoded bounds, DecodeConfig.ColorModel == decoded image's ColorModel(), format name matches the first chunk, package-written files set the alpha flag whenever a decoded pixel is not opaque, image.Decode/image.DecodeConfig report \"webp\" and the same results. "
+             "Oracle: GetFeatures, DecodeConfig, mux.Demuxer and animation.DecodeBytes all accept and agree on canvas size, animation flag, frame count and (animated) loop count; for stills Decode accepts: header width/height == decoded bounds, DecodeConfig.ColorModel == decoded image's ColorModel(), format name matches the first chunk, package-written files set the alpha flag whenever a decoded pixel is not opaque, image.Decode/image.DecodeConfig report \"webp\" and the same results; DecodeConfig, GetFeatures, Decode and image.DecodeConfig give the same answers when the file arrives through another legal io.Reader (one byte per Read, half reads, data together with io.EOF, 16-byte and 4096-byte buffered readers, no Len method). "
              "Non-trivial: every file; distinct = (source, format, animated, chunk layout with empty/odd markers). "
              "Thorough adds a native coverage-guided campaign (FuzzC16): bytes that the strict container validator accepts as a well-formed file go through the same cross-view comparison.",
         assumptions=["the harness binary links no other decoder registering the webp format (x/image/webp is vendored without its init)"],
@@ -144,7 +144,7 @@ CHECKS = {
     ),
     "C11": dict(
         level="exploration",
-        rule="rapid draws call histories (3-14 steps, thorough 3-25) over Encode (lossy/lossless, sizes drawn from three per-history sizes so that equal macroblock counts recur, jittered pixel sizes with the same macroblock count, NRGBA/RGBA/generic sources, assorted options incl. targets), Decode and DecodeConfig/GetFeatures of seed files (intact, truncated, bit-flipped: errors must not poison pools), animation-encoder runs (lossless/lossy/mixed) and animation playback. "
+        rule="rapid draws call histories (3-14 steps, thorough 3-25) over Encode (lossy/lossless, sizes drawn from three per-history sizes so that equal macroblock counts recur, jittered pixel sizes with the same macroblock count, NRGBA/RGBA/generic sources, assorted options incl. targets), Decode and DecodeConfig/GetFeatures of seed files (intact, truncated, bit-flipped: errors must not poison pools), animation-encoder runs (lossless/lossy/mixed), animation playback, and Muxer runs (1-4 frames from C14's bitstream pool with offsets/durations/blend/dispose and an EXIF blob, assembled and read back through a Demuxer); a fifth of the histories are decoder-focused: mostly decodes of freshly generated VP8 (or VP8L) streams that share the history's sizes. "
              "The history runs with the GC disabled (pooled objects survive); every previously returned value and caller-owned input is re-hashed after every later call. Oracle: each call's result equals the result of the same call from a flushed-pool (fresh) state. "
              "Non-trivial: the verif-tagged Pool hook saw at least one pool hit during the history; distinct = sequence of (previous op -> op) pairs.",
         assumptions=["runtime.GC() twice empties every sync.Pool, standing for a fresh process", "results are compared through digests (bytes; image type+bounds+samples; error text)"],
